@@ -10,7 +10,7 @@ PROP = 'C14'
 MODEL_OPS = 'FitModel.get_av_m'
 RULE = ('opacity tables of 2-200 rows in increasing wavelength covering 0.55 micron, positive opacities; queries inside, outside and exactly on table nodes (incl. both end nodes) '
         'and at 0.55 micron; wavelengths of table and queries in micron / cm / nm / Angstrom independently, opacities in cm2/g or m2/kg; the law used directly, after pickling, '
-        'after to_table/from_table, and after from_file with a column selection. non-trivial = at least one query strictly inside and one outside the table.')
+        'after to_table/from_table, and after from_file with a column selection; in half of the direct cases the same object first held other opacities and/or wavelengths, was evaluated, and was then given the table (history). non-trivial = at least one query strictly inside and one outside the table.')
 EXHAUSTIVE = {'quick': False, 'thorough': False}
 ASSUMPTIONS = ['np.interp is an exact piecewise-linear interpolant up to rounding (tolerance 1e-9)',
                'a query on an end node expressed in another unit than the table is an inside/outside tie after conversion and is not compared (near-tie filter); in the table\'s own unit end nodes are compared exactly']
@@ -41,7 +41,8 @@ def generate(tier, seed):
                 q.append(rng.choice([lo / 2, lo * 0.99, hi * 1.01, hi * 4]))
             else:
                 q.append(0.55)
-        cases.append(dict(wav=xs, chi=chi, queries=q, wunit=rng.choice(list(WUNITS)), qunit=rng.choice(list(WUNITS)), cunit=rng.choice(list(CUNITS)),
+        prior = rng.choice([None, None, 'chi', 'chi', 'wav', 'both'])     # what the same object held (and was evaluated with) before it was given this table
+        cases.append(dict(prior=prior, prior_chi=[rng.logdyadic(0.5, 2e4, 12) for _ in xs], prior_wfac=rng.choice([0.5, 2.0, 4.0]), wav=xs, chi=chi, queries=q, wunit=rng.choice(list(WUNITS)), qunit=rng.choice(list(WUNITS)), cunit=rng.choice(list(CUNITS)),
                           transport=rng.choice(['none', 'none', 'pickle', 'table', 'file']), extra_cols=rng.randint(0, 2), scale=rng.choice([1.0, 0.5, 1024.0])))
     return cases
 
@@ -67,8 +68,17 @@ def impl(case):
             e = Extinction.from_file(p, columns=(wcol, ccol), wav_unit=wu, chi_unit=cu)
     else:
         e = Extinction()
-        e.wav = wav * wu
-        e.chi = chi * cu
+        if case.get('prior'):
+            e.wav = (wav * case['prior_wfac'] if case['prior'] in ('wav', 'both') else wav) * wu
+            e.chi = (np.array(case['prior_chi']) if case['prior'] in ('chi', 'both') else chi) * cu
+            e.get_av(np.array(case['queries'] + [0.55]) * u.micron)
+            if case['prior'] in ('wav', 'both'):
+                e.wav = wav * wu
+            if case['prior'] in ('chi', 'both'):
+                e.chi = chi * cu
+        else:
+            e.wav = wav * wu
+            e.chi = chi * cu
         if case['transport'] == 'pickle':
             e = pickle.loads(pickle.dumps(e, 2))
         elif case['transport'] == 'table':
@@ -84,7 +94,7 @@ def model_requests(case):
 
 
 def judge(case, im, mo):
-    tags = ['wunit=' + case['wunit'], 'qunit=' + case['qunit'], 'cunit=' + case['cunit'].replace(' ', ''), 'via=' + case['transport'], 'n=%d' % len(case['wav'])]
+    tags = ['prior=%s' % case.get('prior'), 'wunit=' + case['wunit'], 'qunit=' + case['qunit'], 'cunit=' + case['cunit'].replace(' ', ''), 'via=' + case['transport'], 'n=%d' % len(case['wav'])]
     if 'exc' in im:
         return dict(disagree=['implementation raised ' + im['msg']], fail=['raised: %s' % im['msg']], nontrivial=False, tags=tags + ['raised'])
     m = mo[0]
